@@ -51,6 +51,21 @@ CLAIMED["C20"] = dict(
     design="DESIGN.md#c20",
 )
 
+CLAIMED["C16"] = dict(
+    engine="E-abi",
+    text="Lean theorems over an abstract machine (registers, flags, sp, cell memory with overlap invalidation, "
+    "write log; a wrapper read of a foreign cell is a machine error): each generator is a nest of elementary "
+    "save/restore wrappers, each proved transparent, composed by induction over the register list — for every "
+    "Constraints value, allocation, leaf flag, initial state of any sp alignment and every body respecting the "
+    "frame condition: registers/flags/sp restored, no write at or above sp0 nor in the red zone, only own slots "
+    "read, reported adjustment = real displacement, aligned body entry; allocation theorems for the scratch "
+    "registers. ABI tables regenerated from abi._ABIS and checked (decide) against hand-written platform facts. "
+    "Tie: the real generators' text is parsed, compared with the Lean generator, and executed on the Lean "
+    "machine with a hostile body.",
+    technique="Lean 4 proof (wrapper-transparency lemmas + structural induction) + translator + differential correspondence + executable-spec oracle on the real output",
+    design="DESIGN.md#c16",
+)
+
 ALL = ["C%02d" % i for i in range(1, 21)]
 
 NOT_YET = "engine designed in DESIGN.md but its model/proofs are not built yet in this revision; not claimed"
@@ -89,6 +104,7 @@ def main():
             "add_only": True,
         },
         "engines": [
+            {"name": "E-abi", "path": "lean/GtirbVerif/Model/Abi", "serves_properties": ["C16", "C17"], "kind_free_text": "abstract machine + Lean models of _allocate_patch_registers, the four prologue/epilogue generators and CallPatch; tables regenerated from abi._ABIS"},
             {"name": "E-adt", "path": "lean/GtirbVerif/Model/Adt", "serves_properties": ["C20", "C09"], "kind_free_text": "Lean models of ReferenceCache, ReturnEdgeCache, make_return_cache, BlockOrdering, OffsetMapping, IdentitySet with refinement proofs"},
             {"name": "E-dwarf", "path": "lean/GtirbVerif/Model/Dwarf", "serves_properties": ["C14", "C15"], "kind_free_text": "Lean model of dwarf/_encoders,_encodable,expr,cfi,cfi_eval + regenerated tables"},
         ],
